@@ -48,7 +48,7 @@ extern int mpt_convert_number(const char *src, int fmt, void *dest)
 		case 'i': return mpt_cint32 (dest, src, 0, 0);
 		case 'u': return mpt_cuint32(dest, src, 0, 0);
 		
-		case 'x': return mpt_cuint64(dest, src,  0, 0);
+		case 'x': return mpt_cint64 (dest, src,  0, 0);
 		case 't': return mpt_cuint64(dest, src,  0, 0);
 		case 'l': return mpt_cuint64(dest, src, 16, 0);
 		
